@@ -467,8 +467,9 @@ def _votes_norm(counter, vtype):
 
 PLAIN_NAMES = ["1", "2", "3", "10", "21", "007", "p1", "p2", "A", "b", "Żółw", "x y", "it's", "n-1", "P 12", "é", "3.5", "100"]
 SPECIAL_NAMES = ["a;b", '"q"', 'x"y', ";", '"', 'say "hi"', 'semi;colon "and" quote', "'s;", '""', 'tail"']
-PROJ_KEYS = ["name", "votes", "selected", "district", "public_id", "score", "latitude"]
-VOTE_KEYS = ["age", "sex", "voting_method", "district", "neighborhood", "education"]
+# column names are data: capitals, digits and inner spaces must come back as written (C11-r7B: headers lower-cased while parsing)
+PROJ_KEYS = ["name", "votes", "selected", "district", "public_id", "score", "latitude", "Latitude", "ZIP", "Public Id", "subCategory"]
+VOTE_KEYS = ["age", "sex", "voting_method", "district", "neighborhood", "education", "District", "ZIP", "Age Group", "votingMethod"]
 META_KEYS = ["description", "country", "unit", "subunit", "instance", "rule", "date_begin", "date_end", "language", "edition", "district",
              "comment", "currency", "default_score", "scoring_fn", "fully_funded", "experimental"]
 PLAIN_VALUES = ["", "0", "1", "Some text", "x, y", "12.5", "Ünï cödé", "a  b", "N/A", "F", "M", "internet", "2017", "nonE x", "-"]
